@@ -538,6 +538,8 @@ func (ft *FT) convert(x *ssa.Convert, st *State, guard Term) {
 		ft.env[x] = []Term{v}
 	case isString(to) && isInt(from):
 		ft.define(x, app(ft.ufun("rune2str", []Sort{"Int"}, "Str"), v))
+		// string(r) is the UTF-8 encoding of one code point (U+FFFD for an invalid one): 1 to 4 bytes
+		ft.d.axiom("rune2str len", "(forall ((r Int)) (! (and (<= 1 (slen (rune2str r))) (<= (slen (rune2str r)) 4)) :pattern ((rune2str r))))")
 	case isString(to):
 		// []byte / []rune -> string
 		f := ft.ufun("bytes2str", []Sort{"Slice", arraySort("Int", "Int")}, "Str")
